@@ -185,6 +185,22 @@ def post_model(ctx, T, run_model):
                 extra_f.append("box.open %s %s %s %s %s" % (v, hexs(c[:cut]), hexs(n), pka, skb))
             nx = bytearray(n); nx[rng.randrange(24)] ^= 1
             extra_f.append("box.open %s %s %s %s %s" % (v, hexs(c), hexs(bytes(nx)), pka, skb))
+    # secretstream: one pushed chunk, then every single-bit change of it (tag byte, body, authenticator), truncations and extension pulled
+    # against the SAME puller state (a failed pull leaves the state unchanged, C09), then the genuine chunk, which must still be accepted
+    for (mlen, adl) in ((0, 0), (1, 0), (33, 5), (100, 16)):
+        key, hdr, m, ad = rb(rng, 32), rb(rng, 24), rb(rng, mlen), rb(rng, adl)
+        o = run_model(["ss.init 0 %s %s" % (hexs(key), hexs(hdr)), "ss.push 0 0 %s %s" % (hexs(m), hexs(ad))])[1]
+        c = bytes.fromhex(o.split(" ")[1])
+        extra_f.append("ss.init 1 %s %s" % (hexs(key), hexs(hdr)))
+        for x in flips(rng, c, True):
+            extra_f.append("ss.pull 1 %s %s" % (hexs(x), hexs(ad)))
+        for cut in range(17, len(c)):
+            extra_f.append("ss.pull 1 %s %s" % (hexs(c[:cut]), hexs(ad)))
+        extra_f.append("ss.pull 1 %s %s" % (hexs(c + b"\x00"), hexs(ad)))
+        if ad:
+            for x in flips(rng, ad, True):
+                extra_f.append("ss.pull 1 %s %s" % (hexs(c), hexs(x)))
+        extra_f.append("ss.pull 1 %s %s" % (hexs(c), hexs(ad)))               # genuine, after all the rejected ones
     L += extra_f
     nforged += len(extra_f)
     ctx.stats["forged_inputs"] = nforged
@@ -197,6 +213,10 @@ def predicate(ctx, line, impl, model):
     length, or bytes other than untouched/filler violates it"""
     f = impl.split(" ")
     m = model.split(" ")
+    if line.startswith("ss."):
+        if m[0] == "-1" and f[0] == "0":
+            return True, "altered secretstream chunk accepted"
+        return True, "secretstream pull differs from the model (state or output after a rejected chunk)"
     if line.startswith("auth.verify") and m[0] == "-1":
         return (True, "forged authenticator accepted") if f[0] == "0" else (True, "return code differs from the model")
     if m[0] == "-1":
